@@ -185,6 +185,53 @@ def opsBounds (t : Tables) (kind op : String) (args : List String) : Option Stri
     else match claimed.toNat? with
       | none => pure "bad:satisfied-but-max_weight_to_satisfy-is-Err"
       | some c => pure (firstBad [le "weight" measured c])
+  -- J declared <ctx> <ast> | pkc= st= sat= mss= mwe=      (only for `within_resource_limits` scripts)
+  --   the figures of a script the library declares within the limits of its context are within
+  --   them: script size (520 / 10000 / 3600), 201 executed opcodes outside Tap, scriptSig 1650
+  --   (Legacy: satisfaction + redeem script push), 100 witness items besides the script (Segwitv0), 1000 stack elements (Tap)
+  | "J", "declared", ctx :: _ast :: "|" :: pkc :: st :: sat :: mss :: mwe :: ssz :: _ => do
+    let ctx ← parseCtx ctx; let ssz ← kvNat "ssz" ssz
+    let pkc ← kvNat "pkc" pkc; let st ← kvNat "st" st; let sat ← (kv "sat" sat).bind parseSatData
+    let mss ← (kv "mss" mss).bind b9OptNat; let mwe ← (kv "mwe" mwe).bind b9OptNat
+    match sat, mss, mwe with
+    | some d, some mss, some mwe =>
+      pure (firstBad (
+        (match scriptLimit ctx with
+         | some l => [le "declared-scriptsize" pkc l]
+         | none => [])
+        ++ (if ctx == .tap then [le "declared-stack" (d.wCount + d.execStack) 1000]
+            else [le "declared-ops" (st + d.execOps) 201])
+        -- Legacy = P2SH: the scriptSig is the satisfaction plus the push of the redeem script
+        ++ (if ctx == .legacy then
+              [le "declared-scriptsig" (mss + (pushPrefix ssz).length + ssz) MAX_STANDARD_SCRIPTSIG_SIZE] else [])
+        ++ (if ctx == .segwitv0 then [le "declared-witness-items" (mwe - 1) MAX_STANDARD_P2WSH_STACK_ITEMS] else [])))
+    -- no satisfaction figure: the library calls the script unsatisfiable (Tap declares such
+    -- scripts within limits, the other contexts do not); only the script size says anything
+    | _, _, _ => pure (firstBad (match scriptLimit ctx with
+         | some l => [le "declared-scriptsize" pkc l]
+         | none => []))
+  -- J desclim <kind> <input> <assets> <mode> <pad> | <scriptSig> <witness>
+  --   emitted only for sh / wsh / sh-wsh descriptors whose miniscript is `within_resource_limits`: the spend the
+  --   library produced stays within the standardness limits (scriptSig 1650 bytes INCLUDING the
+  --   redeem script push; P2WSH: 100 witness items besides the script, script 3600 bytes)
+  | "J", "desclim", kind :: _input :: _assets :: _mode :: _pad :: "|" :: ss :: wit :: _ => do
+    let ss ← Hash.ofHex ss; let wit ← parseHexList wit
+    let segwit := kind == "wsh" || kind == "sh-wsh"
+    pure (firstBad ([le "limit-scriptsig" ss.length MAX_STANDARD_SCRIPTSIG_SIZE]
+      ++ (if segwit then
+            [le "limit-witness-items" (wit.length - 1) MAX_STANDARD_P2WSH_STACK_ITEMS,
+             le "limit-scriptsize" ((wit.getLast?.map (·.length)).getD 0) MAX_STANDARD_P2WSH_SCRIPT_SIZE]
+          else [])))
+  -- J descwold <kind> <input> <assets> <mode> <pad> | <scriptSig> <witness> claimed=<wu|none>
+  --   the deprecated `max_satisfaction_weight`: 4 x (scriptSig with its CompactSize) + the
+  --   serialized witness (nothing for an empty witness)
+  | "J", "descwold", _kind :: _input :: _assets :: _mode :: _pad :: "|" :: ss :: wit :: claimed :: _ => do
+    let ss ← Hash.ofHex ss; let wit ← parseHexList wit
+    let claimed ← kv "claimed" claimed
+    let measured := 4 * scriptSigSerSize ss + (if wit.isEmpty then 0 else witnessSerSize wit)
+    match claimed.toNat? with
+    | none => pure "bad:satisfied-but-max_satisfaction_weight-is-Err"
+    | some c => pure (firstBad [le "old-weight" measured c])
   -- J planw <kind> <input> <assets> <mode> <pad> <src> | <scriptSig> <witness> claimed=<witness_size>,<scriptsig_size>,<satisfaction_weight>|none
   --   src = getsat / plansat: the spend produced by get_satisfaction / Plan::satisfy, all three sizes
   --   src = items: only the witness ITEMS the plan's template stands for (the trailing witness
